@@ -2,7 +2,7 @@
 # usage: run.sh [main|pending|withC01|all] [check args...]   builds a throw-away overlay and runs ./check C04 on it
 # main    = drafts/C04/pkg only (the deliverable, assumption-free)
 # pending = main + drafts/C04/pending/pkg (contracts that need engine features; carry stand-in `after .. assume` models)
-# withC01 = main + pending + the C01 helper's draft contracts for pkg/utils/resources (if present)
+# withC01 = main + pending + the C01 helper's draft contracts for pkg/utils/resources (drafts/C01)
 mode=${1:-main}; shift
 OV=${OV:-/tmp/ov_C04_$mode}; rm -rf "$OV"; mkdir -p "$OV"
 cp -r /verif/drafts/C04/pkg "$OV/"
